@@ -512,7 +512,7 @@ func TestProp(t *testing.T) {
 	}
 	shapes := 0
 	if done {
-		for _, enum := range []func(func(Case) bool){enumRoots, enumStructs} {
+		for _, enum := range []func(func(Case) bool){enumRoots, enumStructs, enumUnicode} {
 			enum(func(c Case) bool {
 				shapes++
 				if shapes%shards != shard {
@@ -557,7 +557,12 @@ func TestProp(t *testing.T) {
 	if compose.Hung() {
 		return
 	}
-	run.Rapid(t, rec, "shape", func(t *rapid.T) Case { return after(t, genShape(t)) }, func(c Case) (bool, []string) {
+	run.Rapid(t, rec, "shape", func(t *rapid.T) Case {
+		if rapid.IntRange(0, 2).Draw(t, "unicode") == 0 {
+			return after(t, genUnicode(t))
+		}
+		return after(t, genShape(t))
+	}, func(c Case) (bool, []string) {
 		_, cls := classify(c)
 		return true, cls
 	}, check)
